@@ -252,12 +252,12 @@ theorem fappend_eq_fromArray (Y Z : List Node) (hY : fnorm Y = true) (hZ : fnorm
     `plug (tfsA ++ tfsB) botT` along the end position; the levels `A` are joined, the levels `B` of `from` are closed with
     the fillers `fills`, those of the end position re-opened with the fillers `adds` in front, `fit` goes between them
     at the close level -/
-theorem delete_merged (S : Schema) (hts : TextStableP S) (ty0 : TypeId)
+theorem delete_merged_gap (S : Schema) (hts : TextStableP S) (ty0 : TypeId)
     (ffsA ffsB tfsA tfsB tfsB' : List Frame) (botF botT botL botR : List Node) (floc tloc : Nat)
-    (fills adds : List (List Node)) (fit : List Node) (K : List Node)
+    (fills adds : List (List Node)) (fit G : List Node) (K : List Node)
     (hKf : K = plug (ffsA ++ ffsB) botF) (hKt : K = plug (tfsA ++ tfsB) botT) (hnK : fnorm K = true)
     (hfl : floc ≤ fsize botF) (htl : tloc ≤ fsize botT) (hdF : depthAt botF floc = 0)
-    (hbotL : ftoks botL = (ftoks botF).take floc) (hnL : fnorm botL = true)
+    (hbotL : ftoks botL = (ftoks botF).take floc ++ ftoks G) (hnL : fnorm botL = true) (hnG : fnorm G = true)
     (hsplit : splitRight botT tloc = some (.flat botR))
     (hfT : pbase (ffsA ++ ffsB) + floc ≤ pbase (tfsA ++ tfsB) + tloc)
     (hsame : sameRight tfsB tfsB') (hfnB' : framesFN tfsB') (hcompat : compatFrames S ffsA tfsA)
@@ -266,9 +266,15 @@ theorem delete_merged (S : Schema) (hts : TextStableP S) (ty0 : TypeId)
     (hvc : S.validContent (botTy ty0 ffsA) (headL ffsB botL ++ fit ++ headR tfsB' botR) = true)
     (htfF : ∀ f ∈ fills, textFreeKids f = true) (htfA : ∀ a ∈ adds, textFreeKids a = true)
     (htfit : textFreeKids fit = true)
-    (haf : alignedAt K (pbase (ffsA ++ ffsB) + floc) = true) (hhc : toksHighClosed (ftoks K)) :
+    (haf : alignedAt K (pbase (ffsA ++ ffsB) + floc) = true)
+    (hseam : tokAligned ((ftoks K).take (pbase (ffsA ++ ffsB) + floc)
+          ++ ((ftoks G ++ clT fills) ++ (ftoks fit ++ opaT tfsB' adds)) ++ (ftoks K).drop (pbase (tfsA ++ tfsB) + tloc))
+        (pbase (ffsA ++ ffsB) + floc) = true ∧
+      tokAligned ((ftoks K).take (pbase (ffsA ++ ffsB) + floc)
+          ++ ((ftoks G ++ clT fills) ++ (ftoks fit ++ opaT tfsB' adds)) ++ (ftoks K).drop (pbase (tfsA ++ tfsB) + tloc))
+        (pbase (ffsA ++ ffsB) + floc + ((ftoks G ++ clT fills) ++ (ftoks fit ++ opaT tfsB' adds)).length) = true) :
     replaceKids S ty0 K (pbase (ffsA ++ ffsB) + floc) (pbase (tfsA ++ tfsB) + tloc)
-      ⟨fappend (leftS ffsB fills []) (fit ++ rightS tfsB' adds), ffsB.length, tfsB'.length⟩
+      ⟨fappend (leftS ffsB fills G) (fit ++ rightS tfsB' adds), ffsB.length, tfsB'.length⟩
       = .ok (joinK ffsA tfsA (fappend (leftK ffsB fills botL ++ fit) (rightK tfsB' adds botR))) := by
   have hlenA : ffsA.length = tfsA.length := compatFrames_length S _ _ hcompat
   have hlenB : tfsB.length = tfsB'.length := sameRight_length _ _ hsame
@@ -301,15 +307,14 @@ theorem delete_merged (S : Schema) (hts : TextStableP S) (ty0 : TypeId)
         rightK_sig S tfsB' adds botR hlenR]
   obtain ⟨hvc2, hv2⟩ := joinK_valid S ty0 ffsA tfsA _ hJ hvJ hkJ
   -- the slice pieces
-  have hnA : fnorm (leftS ffsB fills []) = true := leftS_norm ffsB fills [] htfF (by simp [fnorm, chainOk])
+  have hnA : fnorm (leftS ffsB fills G) = true := leftS_norm ffsB fills G htfF hnG
   have htfB : textFreeKids (fit ++ rightS tfsB' adds) = true := by
     rw [textFreeKids_append, htfit, rightS_textFree tfsB' adds htfA]; rfl
   have hnB := fnorm_textFree _ htfB
-  have haA := leftS_spineL ffsB fills [] hlenF
+  have haA := leftS_spineL ffsB fills G hlenF
   have hbB := rightS_spineR fit tfsB' adds hlenR
-  have hTA := leftS_sliceToks ffsB fills [] hlenF
+  have hTA := leftS_sliceToks ffsB fills G hlenF
   have hTB := rightS_sliceToks fit tfsB' adds hlenR
-  simp only [ftoks_nil, List.nil_append] at hTA
   -- sizes
   have hszK := plug_size (tfsA ++ tfsB) botT
   rw [← hKt] at hszK
@@ -321,21 +326,13 @@ theorem delete_merged (S : Schema) (hts : TextStableP S) (ty0 : TypeId)
     rw [hKt]; exact plug_drop _ _ _ htl
   have htk : ftoks (joinK ffsA tfsA (fappend (leftK ffsB fills botL ++ fit) (rightK tfsB' adds botR)))
       = (ftoks K).take (pbase (ffsA ++ ffsB) + floc)
-        ++ ((Slice.mk (leftS ffsB fills []) ffsB.length 0).toks ++ (Slice.mk (fit ++ rightS tfsB' adds) 0 tfsB'.length).toks)
+        ++ ((Slice.mk (leftS ffsB fills G) ffsB.length 0).toks ++ (Slice.mk (fit ++ rightS tfsB' adds) 0 tfsB'.length).toks)
         ++ (ftoks K).drop (pbase (tfsA ++ tfsB) + tloc) := by
     rw [joinK_toks _ _ _ hlenA, fappend_toks, ftoks_append, leftK_toks _ _ _ hlenF, rightK_toks _ _ _ hlenR, htake, hdrop,
       hTA, hTB, preT_append, postT_append, hbotL, htokR, sameRight_postT _ _ hsame]
     simp only [List.append_assoc]
   -- the seams
-  have hXn : ∀ t ∈ clT fills ++ (ftoks fit ++ opaT tfsB' adds), t.isUnit = false := by
-    intro t ht
-    simp only [List.mem_append] at ht
-    rcases ht with ht | ht | ht
-    · exact clT_nonunit fills htfF t ht
-    · exact ftoks_nonunit fit htfit t ht
-    · exact opaT_nonunit tfsB' adds htfA t ht
-  have hseams := seams_aligned (ftoks K) (clT fills ++ (ftoks fit ++ opaT tfsB' adds)) _ _ hhc hfT
-    (by rw [ftoks_length]; exact hT) (by rw [← alignedAt_toks K _ hnK]; exact haf) hXn
+  have hseams := hseam
   rw [hTA, hTB] at htk
   rw [← htk] at hseams
   have haf2 := hseams.1
@@ -347,14 +344,16 @@ theorem delete_merged (S : Schema) (hts : TextStableP S) (ty0 : TypeId)
   have hdKT : depthAt K (pbase (tfsA ++ tfsB) + tloc) = tfsA.length + tfsB.length := by
     rw [hKt, plug_depth _ _ _ (framesFN.norm ((framesFN_append _ _).2 hfnT)) htl, hdT, List.length_append]; rfl
   -- the position behind the inserted content in the result
-  have hszL : fsize botL = floc := by
-    rw [← ftoks_length, hbotL, List.length_take, ftoks_length]; omega
-  have hszY : fsize (leftK ffsB fills botL ++ fit) = pbase ffsB + floc + (clT fills).length + fsize fit := by
+  have hszL : fsize botL = floc + fsize G := by
+    rw [← ftoks_length, hbotL, List.length_append, List.length_take, ftoks_length, ftoks_length]; omega
+  have hszY : fsize (leftK ffsB fills botL ++ fit) = pbase ffsB + (floc + fsize G) + (clT fills).length + fsize fit := by
     rw [fsize_append, ← ftoks_length (leftK ffsB fills botL), leftK_toks _ _ _ hlenF]
     simp only [List.length_append, preT_length, ftoks_length, hszL]
-  have hpos : pbase (ffsA ++ ffsB) + floc + (clT fills).length + (ftoks fit ++ opaT tfsB' adds).length
+  have hpos : pbase (ffsA ++ ffsB) + floc + ((ftoks G ++ clT fills) ++ (ftoks fit ++ opaT tfsB' adds)).length
       = pbase ffsA + (fsize (leftK ffsB fills botL ++ fit) + rbase tfsB' adds) := by
-    rw [hszY, pbase_append, List.length_append, ftoks_length, opaT_length]; omega
+    rw [hszY, pbase_append]
+    simp only [List.length_append, ftoks_length, opaT_length]
+    omega
   have hjle : fsize (leftK ffsB fills botL ++ fit) + rbase tfsB' adds
       ≤ fsize (fappend (leftK ffsB fills botL ++ fit) (rightK tfsB' adds botR)) := by
     rw [fappend_size]; have := rightK_size tfsB' adds botR; omega
@@ -369,7 +368,7 @@ theorem delete_merged (S : Schema) (hts : TextStableP S) (ty0 : TypeId)
       | nil =>
         simp only [plug, pbase, rbase, rightK, Nat.zero_add, Nat.add_zero] at haT2 hjle hpos ⊢
         refine .flat hsplit (splitRight_flat_of_toks _ botR _ (by simpa [rightK] using hnJ) hnR hjle ?_ ?_ ?_)
-        · rw [List.length_append, ← Nat.add_assoc, hpos] at haT2
+        · rw [hpos] at haT2
           rw [← joinK_aligned ffsA tfsA _ _ hlenA (framesFN.norm hfnF.1) hjle]
           exact haT2
         · have := depthAt_balance (fappend (leftK ffsB fills botL ++ fit) botR)
@@ -403,12 +402,46 @@ theorem delete_merged (S : Schema) (hts : TextStableP S) (ty0 : TypeId)
           exact this.congr_right (splitRight_append_pre _ _ _ (fnormKids_of_fnorm hnY)).symm
   have hRR := joinK_rightRel S ffsA tfsA (plug tfsB botT) (pbase tfsB + tloc) _ _ hcompat (framesFN.norm hfnF.1)
     (framesFN.norm hfnT.1) (by have := plug_size tfsB botT; omega) hjle hRc
-  rw [← plug_append, ← hKt, ← Nat.add_assoc, ← pbase_append, ← hpos] at hRR
+  rw [← plug_append, ← hKt, ← Nat.add_assoc, ← pbase_append, ← hpos, List.length_append, ← Nat.add_assoc] at hRR
   -- assemble
   rw [← hTA, ← hTB] at htk hRR
-  refine replaceKids_merged S ty0 K _ _ _ (leftS ffsB fills []) (fit ++ rightS tfsB' adds) ffsB.length tfsB'.length
+  refine replaceKids_merged S ty0 K _ _ _ (leftS ffsB fills G) (fit ++ rightS tfsB' adds) ffsB.length tfsB'.length
     hnK hvc2 hv2 hn2 hnA hnB haA hbB hfT hT htk haf haf2 hRR (by rw [hdKf]; omega) (by rw [hdKf, hdKT]; omega) ?_
   rw [hdKf, Nat.add_sub_cancel, hKf]
-  exact plug_lcompat S ffsA ffsB botF floc fills [] hfl hlenF
+  exact plug_lcompat S ffsA ffsB botF floc fills G hfl hlenF
+
+/-- the instance without moved content: the seams are pair-aligned because the inserted tokens hold no text -/
+theorem delete_merged (S : Schema) (hts : TextStableP S) (ty0 : TypeId)
+    (ffsA ffsB tfsA tfsB tfsB' : List Frame) (botF botT botL botR : List Node) (floc tloc : Nat)
+    (fills adds : List (List Node)) (fit : List Node) (K : List Node)
+    (hKf : K = plug (ffsA ++ ffsB) botF) (hKt : K = plug (tfsA ++ tfsB) botT) (hnK : fnorm K = true)
+    (hfl : floc ≤ fsize botF) (htl : tloc ≤ fsize botT) (hdF : depthAt botF floc = 0)
+    (hbotL : ftoks botL = (ftoks botF).take floc) (hnL : fnorm botL = true)
+    (hsplit : splitRight botT tloc = some (.flat botR))
+    (hfT : pbase (ffsA ++ ffsB) + floc ≤ pbase (tfsA ++ tfsB) + tloc)
+    (hsame : sameRight tfsB tfsB') (hfnB' : framesFN tfsB') (hcompat : compatFrames S ffsA tfsA)
+    (hL : LeftOK S ffsB fills botL) (hR : RightOK S tfsB' adds botR) (hfit : S.checkKids fit = true)
+    (hJ : JoinOK S ty0 ffsA tfsA)
+    (hvc : S.validContent (botTy ty0 ffsA) (headL ffsB botL ++ fit ++ headR tfsB' botR) = true)
+    (htfF : ∀ f ∈ fills, textFreeKids f = true) (htfA : ∀ a ∈ adds, textFreeKids a = true)
+    (htfit : textFreeKids fit = true)
+    (haf : alignedAt K (pbase (ffsA ++ ffsB) + floc) = true) (hhc : toksHighClosed (ftoks K)) :
+    replaceKids S ty0 K (pbase (ffsA ++ ffsB) + floc) (pbase (tfsA ++ tfsB) + tloc)
+      ⟨fappend (leftS ffsB fills []) (fit ++ rightS tfsB' adds), ffsB.length, tfsB'.length⟩
+      = .ok (joinK ffsA tfsA (fappend (leftK ffsB fills botL ++ fit) (rightK tfsB' adds botR))) := by
+  have hszK := plug_size (tfsA ++ tfsB) botT
+  rw [← hKt] at hszK
+  have hXn : ∀ t ∈ clT fills ++ (ftoks fit ++ opaT tfsB' adds), t.isUnit = false := by
+    intro t ht
+    simp only [List.mem_append] at ht
+    rcases ht with ht | ht | ht
+    · exact clT_nonunit fills htfF t ht
+    · exact ftoks_nonunit fit htfit t ht
+    · exact opaT_nonunit tfsB' adds htfA t ht
+  have hseams := seams_aligned (ftoks K) (clT fills ++ (ftoks fit ++ opaT tfsB' adds)) _ _ hhc hfT
+    (by rw [ftoks_length]; omega) (by rw [← alignedAt_toks K _ hnK]; exact haf) hXn
+  exact delete_merged_gap S hts ty0 ffsA ffsB tfsA tfsB tfsB' botF botT botL botR floc tloc fills adds fit [] K hKf hKt hnK
+    hfl htl hdF (by simpa using hbotL) hnL (by simp [fnorm, chainOk]) hsplit hfT hsame hfnB' hcompat hL hR hfit hJ hvc
+    htfF htfA htfit haf (by simpa using hseams)
 
 end PM
